@@ -107,9 +107,19 @@ def removeHead (r : Repo) (c : Nat) : Repo :=
 def replaceHeads (r : Repo) (c : Nat) (rm : List Nat) : Repo :=
   { r with heads := rm.foldl (fun hs p => setRemove p hs) (setInsert c r.heads) }
 
-/-- `MutableRepo::add_head` (`add_heads(&[head])`): incremental update when every parent is a
-current head, otherwise plain insertion (normalised later). -/
+/-- `MutableRepo::add_head` (`add_heads(&[head])`): incremental update when the commit has a
+parent and every parent is a current head (`!head.parent_ids().is_empty() && …all(…)`), otherwise
+plain insertion (normalised later).  The first conjunct keeps the parentless root commit off the
+incremental path ("all parents are heads" is vacuously true for it). -/
 def addHead (r : Repo) (c : Nat) : Repo :=
+  let ps := r.parentsOf c
+  if !ps.isEmpty && ps.all (fun p => r.heads.contains p) then replaceHeads r c ps else viewAddHead r c
+
+/-- **Not the model** (the driver never runs it): `add_head` as it was before the guard
+`!head.parent_ids().is_empty()` was added — the incremental path is taken whenever all parents are
+heads, vacuously so for the root.  Kept only for the sentinel theorem
+`Props/C10.addHeadUnguarded_of_root_breaks_inv`, which shows why the guard is needed. -/
+def addHeadUnguarded (r : Repo) (c : Nat) : Repo :=
   let ps := r.parentsOf c
   if ps.all (fun p => r.heads.contains p) then replaceHeads r c ps else viewAddHead r c
 
